@@ -73,6 +73,18 @@ def _layouts(tier):
                 ['inc.conf', [[SS(2)], [SS(1), '<ta n1>'], [W2, ' ', V1], '</ta>']]]),
         ('S2', main([['kt 5', SS(1)], [SS(1)], [['x', 3]], 'zz top'])),
     ]
+    L += [
+        # ---- a faulty $ construct in the value of a %define whose name may already be defined
+        ('S2', main(['# c', '%define ab 7', ['%define ', W2, ' $', ['x', 2]], 'kt 5'])),
+        ('S2', main(['%define ab', '', ['%define AB ', ['x', 3]], 'kt 5'])),
+        ('S2', [['main.conf', ['%define ab 7', '%include inc.conf', 'kt 5']],
+                ['inc.conf', ['', ['%define ', W2, ' ${', ['x', 1], '}']]]]),
+        # ---- a closer that names an ENCLOSING section's type (or anything else) two levels down
+        ('S4', main(['<ta>', '  <tb x>', '    kb 1', ['  </', W2, '>'], '</ta>'])),
+        ('S4', main(['# c', '<ta>', '  <tb>', '    <tc c1>', ['    </', W2, '>'], '  </tb>', '</ta>'])),
+        ('S4', [['main.conf', ['<ta>', '%include inc.conf', '</ta>']],
+                ['inc.conf', ['', '<tb>', '<tc>', ['</', W2, '>'], '</tb>']]]),
+    ]
     if tier != 'quick':
         L += [
             ('S2', main(['kt 5', '<ta n1>', '  ka 1', [W2, ' ', V2], [W2, ' ', V1], '</ta>'])),
